@@ -40,7 +40,18 @@ def gen_db(rng):
     if rng.random() < 0.6:
         cfg = {"p_id": 0.85, "p_parent": 0.7, "types": ["gene", "mRNA", "exon", "CDS"], "seqids": ["chr1", "chr2"],
                "pool": [1, 5, 10, 20, 30, 40], "strands": ["+", "-"]}
+        r_ = rng.random()
+        if r_ < 0.15:
+            # explicit ids that look like generated ones (what merge() / the importer would hand out next)
+            cfg = dict(cfg, ids=["exon_1", "exon_2", "exon_3", "gene_1", "mRNA_1", "CDS_1"], parents=["gene_1", "mRNA_1", "exon_1"], types=["exon", "exon", "gene", "mRNA", "CDS"])
         feats = G.gff3_batch(rng, rng.randint(2, 10), cfg, unique_ids=True)
+        if 0.15 <= r_ < 0.3:
+            # a hierarchy of five generations below one gene
+            chain = ["a", "b", "c", "d", "e"]
+            feats = [f for f in feats if not any(k == "ID" and v[0] in chain for k, v in f["attrs"])]
+            for i_, (cid, ft) in enumerate(zip(chain, ["gene", "mRNA", "exon", "exon_part", "sub_part"])):
+                attrs = [["ID", [cid]]] + ([["Parent", [chain[i_ - 1]]]] if i_ else [])
+                feats.insert(rng.randint(0, len(feats)), G.mf(["chr1", "src", ft, 1 + i_, 40 - i_, ".", "+", "."], attrs))
         return {"fmt": "gff3", "feats": feats, "directives": rng.choice([[], ["gff-version 3"], ["gff-version 3", "species x"]])}
     feats = []
     while not feats:
@@ -60,7 +71,7 @@ def gen_read(rng):
     if m in ("getitem", "children", "parents", "children_bp", "bed12"):
         op["args"] = [rng.choice(IDPOOL)]
     if m in ("children", "parents") and rng.random() < 0.5:
-        op["kw"]["level"] = rng.choice([1, 2])
+        op["kw"]["level"] = rng.choice([1, 2, 2, 3, 4])
     if m in ("all_features", "features_of_type", "children", "parents"):
         if m == "features_of_type":
             op["args"] = [rng.choice(FT)]
